@@ -297,3 +297,27 @@ def mutate_obj(rng, o):
         vs[i] = mutate_obj(rng, vs[i])
         return ("dict", o[1], vs)
     return rng.choice(SCALARS)
+
+
+def norm_term(t):
+    """Terms as pyanalyze can hold them: unions are flat and have != 1 members, no Annotated[Annotated[..]],
+    no Annotated[Never]."""
+    k = t[0]
+    if k == "union":
+        out = []
+        for x in t[1]:
+            x = norm_term(x)
+            if x[0] == "annotated" and x[1][0] == "union":
+                x = ("union", [("annotated", y) for y in x[1][1]])  # flatten_values hands the metadata down
+            out += x[1] if x[0] == "union" else [x]
+        return out[0] if len(out) == 1 else ("union", out)
+    if k in ("generic", "seq"):
+        return (k, t[1], [norm_term(x) for x in t[2]])
+    if k == "many":
+        return ("many", norm_term(t[1]))
+    if k == "annotated":
+        inner = norm_term(t[1])
+        if inner == ("union", []):
+            return inner
+        return inner if inner[0] == "annotated" else ("annotated", inner)
+    return t
